@@ -11,4 +11,9 @@ inductive WOp where
   | panicGuard | steal | setError | sendWake | sendResult | ret
 deriving DecidableEq, Repr
 
+/-- operations of the `Drop` impls of the four MT types in source order -/
+inductive DOp where
+  | storeShutdown | readShutdown | branch | ret | closeQueue | join
+deriving DecidableEq, Repr
+
 end LzmaVerif.SyncOps
